@@ -10,6 +10,7 @@ import (
 
 	"github.com/hashicorp/hcl-lang/lang"
 	"github.com/hashicorp/hcl-lang/schema"
+	"github.com/hashicorp/hcl/v2"
 	"github.com/hashicorp/hcl/v2/hclsyntax"
 	"github.com/zclconf/go-cty/cty"
 )
@@ -150,5 +151,120 @@ func objectCompletionRanges(run *Run, n int) {
 				}
 			}
 		}
+	}
+}
+
+// literalValueHoverOracle (C12): under literal-value constraints (alone, as one-of alternatives, as map
+// elements) the hover of a written literal carries the description of exactly the alternative whose value
+// it is, and there is no such hover for a literal that is none of the declared values
+func literalValueHoverOracle(run *Run, n int) {
+	ctx := context.Background()
+	lv := func(v cty.Value, name string) schema.LiteralValue {
+		return schema.LiteralValue{Value: v, Description: lang.Markdown("about-" + name)}
+	}
+	type variant struct {
+		cons    schema.Constraint
+		written []string // literal texts to write; the description expected is "about-<text>" when declared
+		known   map[string]bool
+	}
+	boolAlts := schema.OneOf{lv(cty.True, "true"), lv(cty.False, "false")}
+	numAlts := schema.OneOf{lv(cty.NumberIntVal(1), "1"), lv(cty.NumberIntVal(2), "2")}
+	strAlts := schema.OneOf{lv(cty.StringVal("a"), `"a"`), lv(cty.StringVal("b"), `"b"`)}
+	variants := []variant{
+		{boolAlts, []string{"true", "false"}, map[string]bool{"true": true, "false": true}},
+		{numAlts, []string{"1", "2", "3"}, map[string]bool{"1": true, "2": true}},
+		{strAlts, []string{`"a"`, `"b"`, `"c"`}, map[string]bool{`"a"`: true, `"b"`: true}},
+		{lv(cty.NumberIntVal(42), "42"), []string{"42", "43"}, map[string]bool{"42": true}},
+		{lv(cty.True, "true"), []string{"true", "false"}, map[string]bool{"true": true}},
+		{schema.OneOf{lv(cty.False, "false"), lv(cty.NumberIntVal(2), "2"), lv(cty.StringVal("b"), `"b"`)}, []string{"false", "true", "2", "1", `"b"`, `"a"`}, map[string]bool{"false": true, "2": true, `"b"`: true}},
+	}
+	for i := 0; i < n; i++ {
+		r := rand.New(rand.NewSource(subSeed(run.Res.Seed, 1213000+i)))
+		v := variants[i%len(variants)]
+		text := pick(r, v.written)
+		cons, src := v.cons, "lv = "+text+"\n"
+		if r.Intn(3) == 0 {
+			cons, src = schema.Map{Elem: v.cons}, "lv = { k = "+text+" }\n"
+		} else if r.Intn(3) == 0 {
+			cons, src = schema.List{Elem: v.cons}, "lv = ["+text+"]\n"
+		}
+		sch := &schema.BodySchema{Attributes: map[string]*schema.AttributeSchema{"lv": {IsOptional: true, Constraint: cons}}}
+		w := newWorld()
+		pd := w.AddPath("root", sch, map[string]string{"main.tf": src}, nil)
+		d, _ := w.Dec.Path(pd.Path)
+		tbl := lcTable([]byte(src))
+		start := strings.Index(src, text)
+		loc := map[string]interface{}{"seed": run.Res.Seed, "literal_value_hover": i, "src": src, "constraint": Show(consS(cons))}
+		for off := start; off <= start+len(text); off++ {
+			pos, ok := tbl[off]
+			if !ok {
+				continue
+			}
+			res := safeCall("HoverAtPos", func() (interface{}, error) { return d.HoverAtPos(ctx, "main.tf", pos) })
+			run.Res.Evaluations++
+			run.Count("literal_value_hover_positions")
+			if res.Panic != "" || res.Err != nil {
+				continue
+			}
+			hv, _ := res.Val.(*lang.HoverData)
+			if hv == nil {
+				continue
+			}
+			q := Query{Name: "HoverAtPos", Pos: &pos, File: "main.tf"}
+			for name := range map[string]bool{"true": true, "false": true, "1": true, "2": true, "42": true, `"a"`: true, `"b"`: true} {
+				if strings.Contains(hv.Content.Value, "about-"+name) && (name != text || !v.known[text]) {
+					run.Violate(Violation{Key: "C12/literal-value-hover-describes-another-value", Rule: "inside a value the hover describes the innermost sub-expression the schema can interpret",
+						Func: "LiteralValue.HoverAtPos", Detail: fmt.Sprintf("written %s, hover shows the description of %s: %q", text, name, hv.Content.Value), Replay: locWith(loc, q)})
+				}
+			}
+		}
+	}
+}
+
+// forConditionTokensOracle (C13): literals written in the condition of a for expression are marked,
+// whatever the element type of the collection the expression builds
+func forConditionTokensOracle(run *Run, n int) {
+	ctx := context.Background()
+	types := []cty.Type{cty.List(cty.Number), cty.Set(cty.Number), cty.Map(cty.Number), cty.List(cty.String), cty.List(cty.List(cty.String)), cty.DynamicPseudoType, cty.Map(cty.Bool)}
+	conds := []string{"true", "v > 42", "!false", "v == 1 && true", "(v != 7)", "false || v < 3"}
+	for i := 0; i < n; i++ {
+		r := rand.New(rand.NewSource(subSeed(run.Res.Seed, 1313000+i)))
+		t := pick(r, types)
+		cond := pick(r, conds)
+		src := "attr = [for v in [1, 2] : v if " + cond + "]\n"
+		if t.IsMapType() {
+			src = "attr = {for k, v in { a = 1 } : k => v if " + cond + "}\n"
+		}
+		sch := &schema.BodySchema{Attributes: map[string]*schema.AttributeSchema{"attr": {IsOptional: true, Constraint: schema.AnyExpression{OfType: t}}}}
+		w := newWorld()
+		pd := w.AddPath("root", sch, map[string]string{"main.tf": src}, nil)
+		w.Collect()
+		d, _ := w.Dec.Path(pd.Path)
+		res := safeCall("SemanticTokensInFile", func() (interface{}, error) { return d.SemanticTokensInFile(ctx, "main.tf") })
+		run.Res.Evaluations++
+		if res.Panic != "" || res.Err != nil {
+			continue
+		}
+		starts := map[int]lang.SemanticTokenType{}
+		for _, tk := range res.Val.([]lang.SemanticToken) {
+			starts[tk.Range.Start.Byte] = tk.Type
+		}
+		body := pd.Ctx.Files["main.tf"].Body.(*hclsyntax.Body)
+		fe, ok := body.Attributes["attr"].Expr.(*hclsyntax.ForExpr)
+		if !ok || fe.CondExpr == nil {
+			continue
+		}
+		loc := map[string]interface{}{"seed": run.Res.Seed, "for_condition": i, "src": src, "type": t.FriendlyName()}
+		_ = hclsyntax.VisitAll(fe.CondExpr, func(nd hclsyntax.Node) hcl.Diagnostics {
+			if lit, ok := nd.(*hclsyntax.LiteralValueExpr); ok && (lit.Val.Type() == cty.Bool || lit.Val.Type() == cty.Number) {
+				run.Count("for_condition_literals")
+				if _, marked := starts[lit.Range().Start.Byte]; !marked {
+					run.Violate(Violation{Key: "C13/literal-in-for-condition-without-token", Rule: "inside values the literals are marked", Func: "Any.semanticTokensForForExpr",
+						Detail: fmt.Sprintf("%s in the condition %q of a for expression under %s has no token", string(lit.Range().SliceBytes([]byte(src))), cond, t.FriendlyName()),
+						Replay: locWith(loc, Query{Name: "SemanticTokensInFile", File: "main.tf"})})
+				}
+			}
+			return nil
+		})
 	}
 }
